@@ -248,6 +248,9 @@ func ReasonCode(t *rapid.T, label string) uint8 {
 	switch {
 	case k < 3:
 		return 0
+	case k < 4:
+		// just above "success": where an "is it zero?" test can be off by one
+		return rapid.SampledFrom([]uint8{1, 2, 3, 0x7f, 0x80, 0x81, 0xff}).Draw(t, label)
 	case k < 8:
 		return rapid.SampledFrom(knownReasonCodes).Draw(t, label)
 	default:
